@@ -473,7 +473,7 @@ def zone_target_ok(case, T, here, own, n):
     f = find_file(case, resolve(here, h))
     if f is None:
         return n[3] is None or winfree(n[3], T, own)
-    return 'body' in f and winfree(f['body'], T, f['kind'])
+    return 'body' not in f or winfree(f['body'], T, f['kind'])
 
 
 def zone_free(case, nodes, T, here, own, zone=False):
@@ -1209,7 +1209,8 @@ class Gen(object):
             parse = 'text' if kind_of(to) == 'text' else rng.choice([None, None, 'xml'])
             fb = None
             if rng.random() < 0.4:
-                fb = [] if in_fb or rng.random() < 0.15 else self.nodes(max(0, depth - 1), svars, lvars, False, True)
+                # xi:fallback nesting: a fallback may contain includes with fallbacks of their own, three levels deep
+                fb = [] if int(in_fb) >= 3 or rng.random() < 0.15 else self.nodes(max(0, depth - 1), svars, lvars, False, int(in_fb) + 1)
         dyn_ok = True
         static_ok = self.zone or not zone
         if (not static_ok) or (dyn_ok and rng.random() < 0.22):
